@@ -16,6 +16,11 @@ def run(ctx):
     s2 = rxcommon.drive(ctx, "rounds", ["-rounds", 2000 if thorough else 250], "hooks registered before / between responses, packet size changes", env=env)
     s3 = rxcommon.drive(ctx, "until", ["-until", 3000 if thorough else 300], "callback failures: error carries the messages received so far", env=env)
     s4 = rxcommon.drive(ctx, "reads", ["-reads", 40 if thorough else 5], "through the reader goroutine (hook before later packages)", env=env)
+    # packet size changes that arrive on a logical channel (through the reader goroutine) are applied to the connection
+    import os
+    tt = os.path.join(ctx.scratch, "tx-c11.ndjson")
+    ctx.run_driver(["tx", "-count", 400 if thorough else 60, "-seed", ctx.seed, "-out", tt])
+    ctx.validate("", "Trace_TxPath", "Trace_TxPath.cfg", tt, label="packet size changes on channel 0 and on logical channels, then messages cut with the new size", extra_env=env)
     ctx.extra.update({"u2_runs": s0["runs"], "frag_runs": s1["runs"], "round_runs": s2["runs"], "until_runs": s3["runs"], "reader_runs": s4["runs"]})
     ctx.assumptions += [
         "hook events are emitted inside the callback (stamped before the package can reach the consumer), Recv after NextPackage returned (R2)",
